@@ -68,6 +68,9 @@ def main():
     obligations = 0
     discharged = 0
     thm_report = []
+    # optional per-theorem classification supplied by the plugin: main | corollary | refutation | tripwire |
+    # definitional | inactive (premise false for the scraped policy); reported so that the count is not read as more than it is
+    classes = dict(getattr(plugin, "THEOREM_CLASSES", {}))
     if props["ok"]:
         for th in props["theorems"]:
             obligations += 1
@@ -76,7 +79,8 @@ def main():
                 proof_problems.append("theorem %s depends on non-allowed axioms %s" % (th["name"], extra))
             else:
                 discharged += 1
-            thm_report.append({"theorem": th["name"], "assumptions": th["assumptions"] or "Closed under the global context"})
+            thm_report.append({"theorem": th["name"], "class": classes.get(th["name"], "unclassified"),
+                               "assumptions": th["assumptions"] or "Closed under the global context"})
         for nm in props["missing_print"]:
             obligations += 1
             proof_problems.append("theorem %s has no Print Assumptions" % nm)
@@ -112,6 +116,7 @@ def main():
         "obligations": obligations,
         "discharged": discharged,
         "theorems": thm_report,
+        "obligation_classes": {c: sum(1 for t in thm_report if t.get("class") == c) for c in sorted(set(t.get("class") for t in thm_report))},
         "checker_cmd": "coq_makefile -f coq/%s/_CoqProject && make -k (full .vo build, coqc 8.16.1); coqc Properties.v with Print Assumptions under every theorem" % pid,
         "trusted_base": trusted,
     })
@@ -120,6 +125,8 @@ def main():
     try:
         cov2 = plugin.correspond(ctx) if hasattr(plugin, "correspond") else {}
         coverage.update(cov2 or {})
+        if "unproved" not in coverage and getattr(plugin, "UNPROVED", None):
+            coverage["unproved"] = list(plugin.UNPROVED)
     except Exception as ex:
         ctx.note("correspondence crashed: %s" % traceback.format_exc()[-2500:])
         ctx.violation("correspondence-crash", "harness", "correspondence stream could not run: %s" % ex,
